@@ -1,22 +1,22 @@
-\* quick: 2 callers through wait_for_*/create_*, 2 messages in batches <= 2, one cancel, one timeout; exhaustive
+\* a design that collects the not-done waiters when the message comes in, before its handlers run (seeded change C12-b2): expected to violate DeliveryUnbroken
 SPECIFICATION Spec
 CONSTANTS
   Callers = {1, 2}
-  Specs <- SpecsQ
-  Msgs <- MsgsQ
+  Specs <- SpecsG
+  Msgs <- MsgsG
   Apis = {"wait"}
-  MaxFeeds = 2
-  MaxBatch = 2
+  MaxFeeds = 1
+  MaxBatch = 1
   MaxCancel = 1
   MaxDue = 1
-  MaxSlow = 0
+  MaxSlow = 1
   MaxSendFail = 0
   SendHops = 4
   SkipDoneFutures = TRUE
   GuardSetException = TRUE
   AllFieldMatchers = TRUE
   TicketBeforeRegister = TRUE
-  LiveListAtCompletion = TRUE
+  LiveListAtCompletion = FALSE
 INVARIANT TypeOK
 INVARIANT OnlyMatching
 INVARIANT FirstMatching
